@@ -77,7 +77,7 @@ def show(n, ix=None, depth=10):
     if n[0] == "int":
         return str(n[1])
     if n[0] == "leaf":
-        return sym.show(n[1], 5)
+        return n[1] if isinstance(n[1], str) else sym.show(n[1], 5)
     if n[0] == "?":
         return "<%s>" % n[1]
     return "%s(%s)" % (n[0], ", ".join(show(x, ix, depth - 1) for x in n[1:]))
